@@ -70,10 +70,10 @@ def cases(draw, same=None, allow_upsampled_align=True):
         "n": n,
         "same": bool(same),
         "angles": angles,
-        "pad": draw(st.sampled_from([0.0, 0.25, 0.5, 1.0]) | st.floats(0.0, 1.0, allow_nan=False)),
+        "pad": draw(_pads()),
         "pad_value": draw(st.sampled_from(PAD_VALUES)),
         "knots": draw(st.integers(1, 4)),
-        "sigma": draw(st.sampled_from([0.5, 0.3, 1.0, 2.0]) | st.floats(0.3, 2.0, allow_nan=False)),
+        "sigma": draw(_sigmas()),
         "warp_up": draw(st.integers(1, 3)),
         "seed": draw(st.integers(0, 2**31 - 1)),
         "contrast": draw(st.sampled_from([0.3, 0.5, 0.9]) | st.floats(0.3, 0.9, allow_nan=False)),
@@ -83,6 +83,77 @@ def cases(draw, same=None, allow_upsampled_align=True):
     return case
 
 
+def _pads():
+    return st.sampled_from([0.0, 0.25, 0.5, 1.0]) | st.floats(0.0, 1.0, allow_nan=False)
+
+
+def _sigmas():
+    return st.sampled_from([0.5, 0.3, 1.0, 2.0]) | st.floats(0.3, 2.0, allow_nan=False)
+
+
+@st.composite
+def history_cases(draw):
+    """preprocess() -> [alignment step] -> preprocess() again (same or changed settings), 1..2 rounds.
+    The stack holds circularly shifted copies of one image so the alignment measures a real shift and
+    moves the knots in place before the object is re-initialised."""
+    R = draw(st.integers(6, 24))
+    C = R if draw(st.integers(0, 3)) == 0 else draw(st.integers(6, 24))
+    n = draw(st.integers(2, 4))
+    if draw(st.integers(0, 3)) == 0:
+        angles = [draw(_angles()) for _ in range(n)]
+    else:
+        angles = [draw(_angles())] * n
+    shifts = [[0, 0]] + [[draw(st.integers(-3, 3)), draw(st.integers(-3, 3))] for _ in range(n - 1)]
+    if all(sh == [0, 0] for sh in shifts):
+        shifts[1] = [1, -2]  # construction, not rejection: at least one real shift
+    k0 = draw(st.integers(1, 4))
+    draw_k = k0  # number of knots in force when a round's alignment runs
+    rounds = []
+    for _ in range(draw(st.integers(1, 2))):
+        align = draw(
+            st.sampled_from(
+                [None, None]
+                + [{"op": "translation", "up": u} for u in (1, 1, 1, 2, 2, 8)]
+                + [{"op": "affine"}, {"op": "nonrigid"}]
+            )
+        )
+        # the slow public steps only on small problems (cost: nonrigid ~ rows x images x knots optimisations)
+        if align is not None and align["op"] == "nonrigid" and R * n * draw_k > 40:
+            align = {"op": "translation", "up": 1}
+        if align is not None and align["op"] == "affine" and R * C * n > 700:
+            align = {"op": "translation", "up": 2}
+        change = {}
+        which = draw(st.sampled_from(["same", "same", "same", "same", "same", "pad", "knots", "sigma", "angles", "pad_value"]))
+        if which == "pad":
+            change["pad"] = draw(_pads())
+        elif which == "knots":
+            change["knots"] = draw(st.integers(1, 4))
+            draw_k = change["knots"]
+        elif which == "sigma":
+            change["sigma"] = draw(_sigmas())
+        elif which == "angles":
+            change["angles"] = [draw(_angles()) for _ in range(n)]
+        elif which == "pad_value":
+            change["pad_value"] = draw(st.sampled_from(PAD_VALUES))
+        rounds.append({"align": align, "change": change})
+    return {
+        "kind": "history",
+        "R": R,
+        "C": C,
+        "n": n,
+        "angles": angles,
+        "shifts": shifts,
+        "pad": draw(_pads()),
+        "pad_value": draw(st.sampled_from(PAD_VALUES)),
+        "knots": k0,
+        "sigma": draw(_sigmas()),
+        "warp_up": draw(st.integers(1, 3)),
+        "seed": draw(st.integers(0, 2**31 - 1)),
+        "contrast": draw(st.sampled_from([0.3, 0.5, 0.9]) | st.floats(0.3, 0.9, allow_nan=False)),
+        "rounds": rounds,
+    }
+
+
 # ------------------------------------------------------------------------------------------------
 # judge
 # ------------------------------------------------------------------------------------------------
@@ -90,7 +161,83 @@ def _is_axis(a):
     return float(a) % 90.0 == 0.0
 
 
+def _new_metrics():
+    return {"coord": 0.0, "wsum": 0.0, "centroid": 0.0, "knot": 0.0, "knot_over_noise": 0.0, "img_interior_over_tol": 0.0, "img_any_over_tol": 0.0}
+
+
+def _judge_initial_geometry(ctx, case, dc, images, angles, R, C, k, sigma, pad, up, metrics, stage=""):
+    """Clauses (1) and (2) on an object whose preprocess() has just returned.  Returns copies of
+    (images_warped, weights_warped, knots) as they are at that moment."""
+    n = len(images)
+    with ctx.sut(case, "reading images_warped / weights_warped / knots" + stage):
+        warped0 = np.array(dc.images_warped.array, copy=True)
+        weights0 = np.array(dc.weights_warped.array, copy=True)
+        knots0 = [np.array(kn, dtype=np.float64, copy=True) for kn in dc.knots]
+    if warped0.ndim != 3 or warped0.shape[0] != n:
+        raise core.Violation("images_warped has shape %s for a stack of %d%s" % (warped0.shape, n, stage), case)
+    H, W = int(warped0.shape[1]), int(warped0.shape[2])
+    if len(knots0) != n:
+        raise core.Violation("%d knot arrays for a stack of %d%s" % (len(knots0), n, stage), case)
+
+    for i in range(n):
+        # ---- (1) coordinates of the initial knots == closed form ----------------------------------
+        if knots0[i].shape != (2, R, k):
+            raise core.Violation("image %d: knots have shape %s, expected (2, %d, %d)%s" % (i, knots0[i].shape, R, k, stage), case)
+        with ctx.sut(case, "DriftInterpolator.transform_coordinates(initial knots)" + stage):
+            xa, ya = dc.interpolator[i].transform_coordinates(dc.knots[i])
+            xa = np.asarray(xa, dtype=np.float64)
+            ya = np.asarray(ya, dtype=np.float64)
+        if xa.shape != (R, C) or ya.shape != (R, C):
+            raise core.Violation("image %d: coordinates have shapes %s/%s, expected (%d, %d)%s" % (i, xa.shape, ya.shape, R, C, stage), case)
+        X, Y = ref.closed_form(R, C, H, W, angles[i])
+        ex, ey = np.abs(xa - X), np.abs(ya - Y)
+        err = float(np.max(np.stack([ex, ey])))  # NaN propagates and fails the comparison below
+        metrics["coord"] = max(metrics["coord"], err)
+        if not err <= TOL_COORD:
+            ax = "col" if ey.max() > ex.max() else "row"
+            r, c = np.unravel_index(int(np.argmax(ex if ax == "row" else ey)), (R, C))
+            raise core.Violation(
+                "image %d (%dx%d, %g deg, %d knot(s), canvas %dx%d)%s: pixel (%d,%d) is placed at (%.6f, %.6f), "
+                "closed form centre+rotation gives (%.6f, %.6f): %s coordinate off by %.3g px"
+                % (i, R, C, angles[i], k, H, W, stage, r, c, xa[r, c], ya[r, c], X[r, c], Y[r, c], ax, err),
+                case,
+            )
+
+        # ---- (2) unit weight per pixel -----------------------------------------------------------
+        with ctx.sut(case, "DriftInterpolator.warp_image(upsample_factor=%d)%s" % (up, stage)):
+            _im, w_up = dc.interpolator[i].warp_image(images[i], dc.knots[i], upsample_factor=up)
+        for what, w in (("preprocess weights_warped", weights0[i]), ("warp_image(upsample_factor=%d) weights" % up, w_up)):
+            w = np.asarray(w)
+            if not np.all(np.isfinite(w)):
+                raise core.Violation("image %d: %s contain non-finite values%s" % (i, what, stage), case)
+            tot = float(np.sum(w, dtype=np.float64))
+            rel = abs(tot / (R * C) - 1.0)
+            metrics["wsum"] = max(metrics["wsum"], rel)
+            if not rel <= RTOL_WSUM:
+                raise core.Violation(
+                    "image %d (%dx%d, %g deg, pad %g, sigma %g)%s: %s sum to %.6f, expected R*C = %d"
+                    % (i, R, C, angles[i], pad, sigma, stage, what, tot, R * C),
+                    case,
+                )
+        # centroid of the weight map: only when no splat or KDE tail can touch the canvas border
+        m = int(4.0 * sigma + 0.5) + 2
+        if X.min() >= m and Y.min() >= m and X.max() <= H - 1 - m and Y.max() <= W - 1 - m:
+            ctx.count("centroid_checked")
+            cx, cy = ref.centroid(weights0[i])
+            cerr = max(abs(cx - (H - 1) / 2.0), abs(cy - (W - 1) / 2.0))
+            metrics["centroid"] = max(metrics["centroid"], cerr)
+            if not cerr <= TOL_CENTROID:
+                raise core.Violation(
+                    "image %d (%dx%d, %g deg, canvas %dx%d)%s: centroid of the weight map is (%.5f, %.5f), canvas centre is (%.1f, %.1f)"
+                    % (i, R, C, angles[i], H, W, stage, cx, cy, (H - 1) / 2.0, (W - 1) / 2.0),
+                    case,
+                )
+    return warped0, weights0, knots0
+
+
 def check(ctx, case):
+    if case.get("kind") == "history":
+        return _check_history(ctx, case)
     DriftCorrection = _q()
     R, C, n, k = int(case["R"]), int(case["C"]), int(case["n"]), int(case["knots"])
     angles = [float(a) for a in case["angles"]]
@@ -127,67 +274,8 @@ def check(ctx, case):
             kde_sigma=sigma,
             number_knots=k,
         )
-        warped0 = np.array(dc.images_warped.array, copy=True)
-        weights0 = np.array(dc.weights_warped.array, copy=True)
-        knots0 = [np.array(kn, dtype=np.float64, copy=True) for kn in dc.knots]
-    if warped0.ndim != 3 or warped0.shape[0] != n:
-        raise core.Violation("images_warped has shape %s for a stack of %d" % (warped0.shape, n), case)
-    H, W = int(warped0.shape[1]), int(warped0.shape[2])
-    metrics = {"coord": 0.0, "wsum": 0.0, "centroid": 0.0, "knot": 0.0, "knot_over_noise": 0.0, "img_interior_over_tol": 0.0, "img_any_over_tol": 0.0}
-
-    for i in range(n):
-        # ---- (1) coordinates of the initial knots == closed form ----------------------------------
-        if knots0[i].shape != (2, R, k):
-            raise core.Violation("image %d: knots have shape %s, expected (2, %d, %d)" % (i, knots0[i].shape, R, k), case)
-        with ctx.sut(case, "DriftInterpolator.transform_coordinates(initial knots)"):
-            xa, ya = dc.interpolator[i].transform_coordinates(dc.knots[i])
-            xa = np.asarray(xa, dtype=np.float64)
-            ya = np.asarray(ya, dtype=np.float64)
-        if xa.shape != (R, C) or ya.shape != (R, C):
-            raise core.Violation("image %d: coordinates have shapes %s/%s, expected (%d, %d)" % (i, xa.shape, ya.shape, R, C), case)
-        X, Y = ref.closed_form(R, C, H, W, angles[i])
-        ex, ey = np.abs(xa - X), np.abs(ya - Y)
-        err = float(np.max(np.stack([ex, ey])))  # NaN propagates and fails the comparison below
-        metrics["coord"] = max(metrics["coord"], err)
-        if not err <= TOL_COORD:
-            ax = "col" if ey.max() > ex.max() else "row"
-            r, c = np.unravel_index(int(np.argmax(ex if ax == "row" else ey)), (R, C))
-            raise core.Violation(
-                "image %d (%dx%d, %g deg, %d knot(s), canvas %dx%d): pixel (%d,%d) is placed at (%.6f, %.6f), "
-                "closed form centre+rotation gives (%.6f, %.6f): %s coordinate off by %.3g px"
-                % (i, R, C, angles[i], k, H, W, r, c, xa[r, c], ya[r, c], X[r, c], Y[r, c], ax, err),
-                case,
-            )
-
-        # ---- (2) unit weight per pixel -----------------------------------------------------------
-        with ctx.sut(case, "DriftInterpolator.warp_image(upsample_factor=%d)" % up):
-            _im, w_up = dc.interpolator[i].warp_image(images[i], dc.knots[i], upsample_factor=up)
-        for what, w in (("preprocess weights_warped", weights0[i]), ("warp_image(upsample_factor=%d) weights" % up, w_up)):
-            w = np.asarray(w)
-            if not np.all(np.isfinite(w)):
-                raise core.Violation("image %d: %s contain non-finite values" % (i, what), case)
-            tot = float(np.sum(w, dtype=np.float64))
-            rel = abs(tot / (R * C) - 1.0)
-            metrics["wsum"] = max(metrics["wsum"], rel)
-            if not rel <= RTOL_WSUM:
-                raise core.Violation(
-                    "image %d (%dx%d, %g deg, pad %g, sigma %g): %s sum to %.6f, expected R*C = %d"
-                    % (i, R, C, angles[i], case["pad"], sigma, what, tot, R * C),
-                    case,
-                )
-        # centroid of the weight map: only when no splat or KDE tail can touch the canvas border
-        m = int(4.0 * sigma + 0.5) + 2
-        if X.min() >= m and Y.min() >= m and X.max() <= H - 1 - m and Y.max() <= W - 1 - m:
-            ctx.count("centroid_checked")
-            cx, cy = ref.centroid(weights0[i])
-            cerr = max(abs(cx - (H - 1) / 2.0), abs(cy - (W - 1) / 2.0))
-            metrics["centroid"] = max(metrics["centroid"], cerr)
-            if not cerr <= TOL_CENTROID:
-                raise core.Violation(
-                    "image %d (%dx%d, %g deg, canvas %dx%d): centroid of the weight map is (%.5f, %.5f), canvas centre is (%.1f, %.1f)"
-                    % (i, R, C, angles[i], H, W, cx, cy, (H - 1) / 2.0, (W - 1) / 2.0),
-                    case,
-                )
+    metrics = _new_metrics()
+    warped0, weights0, knots0 = _judge_initial_geometry(ctx, case, dc, images, angles, R, C, k, sigma, case["pad"], up, metrics)
 
     # ---- (3) identical stack is a fixed point of translation alignment --------------------------
     if same:
@@ -237,20 +325,115 @@ def check(ctx, case):
     return metrics
 
 
+MOVED_MIN = 0.25  # px: knot displacement by an alignment step that makes a history case non-trivial
+
+
+def _check_history(ctx, case):
+    """Clauses (1)-(2) hold again after every repeated preprocess(): a preprocess() call re-initialises the
+    geometry, so for the object it returns no drift has been estimated yet, whatever happened before."""
+    DriftCorrection = _q()
+    R, C, n = int(case["R"]), int(case["C"]), int(case["n"])
+    up = int(case["warp_up"])
+    cur = {
+        "pad": case["pad"],
+        "pad_value": case["pad_value"],
+        "knots": int(case["knots"]),
+        "sigma": float(case["sigma"]),
+        "angles": [float(a) for a in case["angles"]],
+    }
+    base = ref.content(R, C, case["seed"], case["contrast"])
+    images = [np.roll(base, (int(sh[0]), int(sh[1])), axis=(0, 1)) for sh in case["shifts"]]
+    metrics = _new_metrics()
+
+    def _pre(dc):
+        return dc.preprocess(pad_fraction=cur["pad"], pad_value=cur["pad_value"], kde_sigma=cur["sigma"], number_knots=cur["knots"])
+
+    with ctx.sut(case, "DriftCorrection.from_data(...).preprocess(...)"):
+        dc = _pre(DriftCorrection.from_data([im.copy() for im in images], list(cur["angles"])))
+    _w, _c, knots_init = _judge_initial_geometry(
+        ctx, case, dc, images, cur["angles"], R, C, cur["knots"], cur["sigma"], cur["pad"], up, metrics, stage=" [first preprocess]"
+    )
+
+    moved_max = 0.0
+    same_settings_after_move = False
+    ops = []
+    for ri, rnd in enumerate(case["rounds"]):
+        al = rnd.get("align")
+        moved = 0.0
+        if al is not None:
+            op = al["op"]
+            # the property says nothing about what the alignment does to this (arbitrary) stack, only that it
+            # is a public step that may move the knots: an exception here is not a C15 violation -> the
+            # history simply continues with whatever state the object is in
+            try:
+                if op == "translation":
+                    dc.align_translation(upsample_factor=int(al["up"]), show_merged=False)
+                elif op == "affine":
+                    dc.align_affine(num_tests=3, refine=False, upsample_factor=2, show_merged=False)
+                else:
+                    dc.align_nonrigid(num_iterations=1, max_optimize_iterations=2, show_merged=False)
+                ops.append(op)
+            except Exception:  # noqa: BLE001
+                ctx.count("history_align_raised:" + op)
+            try:
+                moved = max(core.maxerr(np.asarray(a, dtype=np.float64), b) for a, b in zip(dc.knots, knots_init))
+                if not np.isfinite(moved):
+                    moved = float("inf")
+            except Exception:  # noqa: BLE001
+                moved = 0.0
+        ch = rnd.get("change") or {}
+        for key in ("pad", "pad_value", "knots", "sigma"):
+            if key in ch:
+                cur[key] = int(ch[key]) if key == "knots" else ch[key]
+        if "angles" in ch:
+            cur["angles"] = [float(a) for a in ch["angles"]]
+            with ctx.sut(case, "scan_direction_degrees = ..."):
+                dc.scan_direction_degrees = list(cur["angles"])
+        if moved >= MOVED_MIN:
+            moved_max = max(moved_max, moved)
+            if not ch:
+                same_settings_after_move = True
+        stage = " [preprocess #%d, after %s, %s]" % (
+            ri + 2,
+            "no alignment" if al is None else "align_%s moved the knots %.3g px" % (al["op"], moved),
+            "same settings" if not ch else "changed " + ",".join(sorted(ch)),
+        )
+        with ctx.sut(case, "preprocess() again" + stage):
+            _pre(dc)
+        _w, _c, knots_init = _judge_initial_geometry(
+            ctx, case, dc, images, cur["angles"], R, C, cur["knots"], cur["sigma"], cur["pad"], up, metrics, stage=stage
+        )
+
+    classes = [
+        "history",
+        "history_rounds:%d" % len(case["rounds"]),
+        "history_knots_moved" if moved_max >= MOVED_MIN else "history_knots_not_moved",
+    ]
+    classes += sorted(set("history_align:" + o for o in ops))
+    if same_settings_after_move:
+        classes.append("history_same_settings_after_move")
+    if any(not r.get("align") and not r.get("change") for r in case["rounds"]):
+        classes.append("history_preprocess_twice")
+    ctx.record(case, moved_max >= MOVED_MIN, classes)
+    metrics["history_moved"] = moved_max if np.isfinite(moved_max) else 0.0
+    return metrics
+
+
 # ------------------------------------------------------------------------------------------------
 def _body(ctx, case):
     m = check(ctx, case)
     for k, v in m.items():
         ctx.extra["max_" + k] = max(ctx.extra.get("max_" + k, 0.0), float(v))
     target(float(np.log10(m["coord"] + 1e-18)), label="log10 coordinate error")
-    if case["same"]:
+    if case.get("same"):
         target(float(np.log10(m["knot_over_noise"] + 1e-18)), label="log10 knot movement / rounding noise")
 
 
 def search(ctx):
     allow_up = not ctx.is_open(KEY_UPSAMPLE)
-    n_fix = ctx.n(500, 5000)
+    n_fix = ctx.n(400, 4000)
     if not allow_up:
         ctx.exclude(KEY_UPSAMPLE, n_fix)
-    core.run_given(ctx, "geometry", cases(same=False), lambda c: _body(ctx, c), ctx.n(700, 7000))
+    core.run_given(ctx, "geometry", cases(same=False), lambda c: _body(ctx, c), ctx.n(550, 5500))
     core.run_given(ctx, "fixed-point", cases(same=True, allow_upsampled_align=allow_up), lambda c: _body(ctx, c), n_fix)
+    core.run_given(ctx, "history", history_cases(), lambda c: _body(ctx, c), ctx.n(200, 2000))
